@@ -32,7 +32,7 @@ type pairRec struct {
 // after this many fatal crashes / timeouts of the implementation a run stops generating (the evidence is in)
 const maxCrashes = 3
 
-const header = "From GS Require Import Base.Str Gen.GenDiffTables Tools.DiffTypes Tools.DiffSpec Tools.DiffModel Tools.DiffReport Tools.DiffRun.\n"
+const header = "From GS Require Import Base.Str Gen.GenDiffTables Tools.DiffTypes Tools.DiffSpec Tools.DiffModel Tools.DiffReport Tools.DiffExt Tools.DiffRun.\n"
 
 // genPair produces one (A,B) pair with its description.
 func genPair(g *dspec.Gen, i int) (a, b *dspec.Spec, kind string, edits []string) {
@@ -97,7 +97,7 @@ func cmdCorr(args []string) {
 		}
 		recs = append(recs, pairRec{Index: i, Kind: kind, Edits: edits, A: a.JSON(), B: b.JSON(), Impl: dimpl.Lines(res)})
 		sh := i % *shards
-		bufs[sh] = append(bufs[sh], fmt.Sprintf("(* case %d *) {| c_a := %s; c_b := %s; c_obs := %s |}", i, a.Coq(), b.Coq(), dimpl.ObservedCoq(res)))
+		bufs[sh] = append(bufs[sh], fmt.Sprintf("(* case %d *) {| c_a := %s; c_b := %s; c_obs := %s; c_xa := %s; c_xb := %s |}", i, a.Coq(), b.Coq(), dimpl.ObservedCoq(res), a.XCoq(), b.XCoq()))
 	}
 	for sh := 0; sh < *shards; sh++ {
 		var sb strings.Builder
@@ -107,7 +107,7 @@ func cmdCorr(args []string) {
 		sb.WriteString("\n].\nDefinition M := Eval vm_compute in run_cases_p " + *proj + " cases.\nPrint M.\n")
 		if *proj == "PTotal" {
 			// how many of the documents are in the domain of C12_identity / C12_total (distinct keys; closed)
-			sb.WriteString("From GS Require Import Tools.DiffIdentity Tools.DiffTotal.\nDefinition W := Eval vm_compute in (length (filter (fun c => wf_swaggerb (c_a c) && closed_swaggerb (c_a c) && closed_swaggerb (c_b c)) cases), length cases).\nPrint W.\n")
+			sb.WriteString("From GS Require Import Tools.DiffIdentity Tools.DiffTotal Tools.DiffExtLemmas.\nDefinition W := Eval vm_compute in (length (filter (fun c => wf_swaggerb (c_a c) && wf_xdoc (c_xa c) && closed_swaggerb (c_a c) && closed_swaggerb (c_b c)) cases), length cases).\nPrint W.\n")
 		}
 		if err := os.WriteFile(filepath.Join(*out, fmt.Sprintf("cases_%02d.v", sh)), []byte(sb.String()), 0o644); err != nil {
 			die("%v", err)
